@@ -253,20 +253,20 @@ def r4_filter(ctx):
             op, a, b = r[2][1], r[2][2], r[2][3]
 
             def is_pred(t):
-                t = t[1][1] if t[0] == "call" and t[1][0] == "attr" and t[1][2] == "reshape" else t
+                t = Q.reshape_of(t)[0] if Q.reshape_of(t) is not None else t
                 return t[0] == "elem" and any(x[0] == "call" and x[1] == ("attr", Q.SELF, "predict") for x in walk(t[1]))
 
             def is_data(t):
-                t = t[1][1] if t[0] == "call" and t[1][0] == "attr" and t[1][2] == "reshape" else t
+                t = Q.reshape_of(t)[0] if Q.reshape_of(t) is not None else t
                 return t[0] == "elem" and Q.unwrap(t[1]) == ("param", "data")
             if op == "-" and is_pred(a) and is_data(b):
                 ctx.check("R4", "%s|residual-form|%s" % (qn, tag), False, "", bad="residuals are prediction - data (sign flipped)", fn=qn)
                 continue
             d_el = a[0] == "elem" and Q.unwrap(a[1]) == ("param", "data")
-            pinner = b[1][1] if b[0] == "call" and b[1][0] == "attr" and b[1][2] == "reshape" else b
+            pinner = Q.reshape_of(b)[0] if Q.reshape_of(b) is not None else b
             p_el = pinner[0] == "elem" and any(x[0] == "call" and x[1] == ("attr", Q.SELF, "predict") for x in walk(pinner[1]))
             instep = d_el and p_el and a[2] == pinner[2]
-            shape_ok = b[0] == "call" and b[1][0] == "attr" and b[1][2] == "reshape" and b[2] == (("attr", a, "shape"),)
+            shape_ok = Q.reshape_of(b) is not None and Q.reshape_of(b)[1] == ("attr", a, "shape")
             if op == "-" and instep and shape_ok:
                 ok = True
             elif op == "-" and p_el is False and a[0] == "elem" and any(x[0] == "call" and x[1] == ("attr", Q.SELF, "predict") for x in walk(a[1])):
